@@ -114,8 +114,15 @@ def finish(run, args):
                     if sres.get("violates"):
                         native_res = sres
             path = write_replay(pid, name, payload)
-            if sat or (base_names is None or name in base_names or True):
-                violations.append((name, path, bool(native_res and native_res.get("violates"))))
+            reproduced = bool(native_res and native_res.get("violates"))
+            fragile = (not sat) and baseline is not None and any(
+                b in ("z3", "cvc5") for b in (baseline.get("backends", {}).get(name) or []))
+            if fragile and not reproduced:
+                # on the reference tree this obligation needed the quantified stage (solver-time dependent): a
+                # candidate model without native confirmation is reported as undecided, not as a violation
+                undecided.append((name, "candidate model on an obligation that needed the quantified stage at baseline"))
+            else:
+                violations.append((name, path, reproduced))
             continue
         # open without any model: bare timeout / unknown
         reason = "; ".join(sorted(set(str(r.get("reason")) for r in insts)))[:200]
@@ -165,8 +172,8 @@ def finish(run, args):
     if args.write_baseline:
         os.makedirs(os.path.join(VERIF, "baseline"), exist_ok=True)
         with open(os.path.join(VERIF, "baseline", pid + ".json"), "w") as f:
-            json.dump(dict(property=pid, discharged=sorted(n for n, a in agg.items() if a["verdict"] == "discharged")),
-                      f, indent=1)
+            json.dump(dict(property=pid, discharged=sorted(n for n, a in agg.items() if a["verdict"] == "discharged"),
+                           backends={n: a["backends"] for n, a in sorted(agg.items())}), f, indent=1)
     if getattr(args, "v", False):
         for name, a in sorted(agg.items()):
             print("  %-11s %6.2fs x%-3d %s %s" % (a["verdict"], a["secs"], a["instances"], ",".join(a["backends"]), name))
